@@ -162,9 +162,18 @@ def fstring_parts(node, holes):
 
 
 def generate(repo):
-    v = dict(gaugeModes=[], mostRecent=[], livePrefix='', metricTypes=[], rules=[], tsOrZero=False, pid='', le='',
-             bucket='', count='', fileParts=['', '', ''], gaugeSep='', deadParts=['', '', ''], gaugeType='', histType='',
-             splitSep='', extLen=0)
+    # Fallback values: the shapes this extractor was written against.  When a site has an unexpected shape the run is
+    # flagged (`extractOk := false` + EXTRACT-FAIL, a broken obligation) and the definitions NOT yet extracted keep
+    # these values, so that the model, the lemma files and the driver still COMPILE and the correspondence run can
+    # go on looking for a failing input (an empty literal here used to break `decide` proofs in lemma files and, through
+    # them, the driver build).  Values that were extracted before the failure are emitted as extracted.
+    v = dict(gaugeModes=['all', 'liveall', 'min', 'livemin', 'max', 'livemax', 'sum', 'livesum', 'mostrecent', 'livemostrecent'],
+             mostRecent=['mostrecent', 'livemostrecent'], livePrefix='live',
+             metricTypes=['counter', 'gauge', 'summary', 'histogram', 'gaugehistogram', 'unknown', 'info', 'stateset'],
+             rules=[(['min', 'livemin'], '.setdefaultCmp .lt'), (['max', 'livemax'], '.setdefaultCmp .gt'),
+                    (['sum', 'livesum'], '.plusEq'), (['mostrecent', 'livemostrecent'], '.tsCmp .lt')],
+             tsOrZero=True, pid='pid', le='le', bucket='_bucket', count='_count', fileParts=['', '_', '.db'],
+             gaugeSep='_', deadParts=['gauge_', '_', '.db'], gaugeType='gauge', histType='histogram', splitSep='_', extLen=3)
     ok, why = True, ''
     try:
         mt = parse(repo, 'prometheus_client/metrics.py')
@@ -365,6 +374,8 @@ def generate(repo):
             raise Fail('mmap_key changed')
     except Fail as e:
         ok, why = False, str(e)
+    except Exception as e:  # noqa  -- a shape so unexpected that the extractor itself tripped: same treatment
+        ok, why = False, 'extractor exception %s: %s' % (type(e).__name__, str(e).replace('\n', ' '))
     out = header(TARGET, SOURCES) + DECLS
     if not ok:
         out += '-- EXTRACT-FAIL multiprocess: %s\n' % why
